@@ -792,8 +792,19 @@ func (e *nnsEngine) build(op nnsOp) []*nnsTx {
 		}
 		if op.Kind == nnsOpSetRec {
 			c.id = int64(op.Id)
-			if len(cur) > 0 && op.Id < 3 {
-				c.id = int64(op.Id % len(cur))
+			if len(cur) > 0 {
+				// every existing index is a target, the last one often (the 16th
+				// slot is the boundary of the list); Id 3 aims past the end
+				switch op.Id {
+				case 0:
+					c.id = int64(op.Data % len(cur))
+				case 1:
+					c.id = int64(len(cur) - 1)
+				case 2:
+					c.id = int64(op.Data % 3 % len(cur))
+				default:
+					c.id = int64(len(cur) + op.Data%2*(nnsMaxRec-len(cur)))
+				}
 			}
 			if c.id < int64(len(cur)) && !c.badData {
 				dup := false
